@@ -162,6 +162,9 @@ class PendingComp(PendingExprGeneric[_CompNode]):
         elif isinstance(target, (Tuple, List)):
             for sub_target in target.elts:
                 self.get_comp_target_names(sub_target)
+        elif isinstance(target, Starred):
+            # extended unpacking: [a for *a, b in x]
+            self.get_comp_target_names(target.value)
         else:  # pragma: no cover
             raise RuntimeError("Unknown comprehension target")
 
